@@ -105,6 +105,22 @@ fn host_colon(t: &[char], special: bool) -> bool {
 fn contains_double_slash(t: &[char]) -> bool {
     t.windows(2).any(|w| w == ['/', '/'])
 }
+/// "." or "%2e" / "%2E" at the start: the rest
+fn dot_prefix(t: &[char]) -> Option<&[char]> {
+    match t {
+        ['.', r @ ..] => Some(r),
+        ['%', '2', 'e' | 'E', r @ ..] => Some(r),
+        _ => None,
+    }
+}
+/// two dots (each "." or "%2e") next to each other somewhere
+fn has_dotdot(t: &[char]) -> bool {
+    (0..t.len()).any(|i| dot_prefix(&t[i..]).and_then(dot_prefix).is_some())
+}
+/// one dot somewhere
+fn has_dot(t: &[char]) -> bool {
+    (0..t.len()).any(|i| dot_prefix(&t[i..]).is_some())
+}
 
 /// Known_C07: classes of (URL, setter, value) on which the pinned code is known to leave the
 /// Standard (DESIGN.md section 9, F-C07-1..11); by mechanism.  0 = not known.
@@ -125,16 +141,16 @@ fn known_c07(u: &Url, setter: &str, v: &str) -> u32 {
             0
         }
         "protocol" => {
-            // K6 (F-C07-7): the new scheme is `file` and the old one is not
+            // K6 (F-C07-7): the new scheme is `file`, the old one is special and not `file`
             let name: String = t.iter().take_while(|c| **c != ':').map(|c| c.to_ascii_lowercase()).collect();
-            if name == "file" && !file {
+            if name == "file" && special && !file {
                 return 6;
             }
             0
         }
         "port" => {
-            // K8 (F-C07-9): a non-empty value of tab / newline only
-            if !v.is_empty() && t.is_empty() {
+            // K8 (F-C07-9): a non-empty value of tab / newline only, when there is a port to lose
+            if !v.is_empty() && t.is_empty() && u.port().is_some() {
                 return 8;
             }
             0
@@ -146,7 +162,7 @@ fn known_c07(u: &Url, setter: &str, v: &str) -> u32 {
                 return 4;
             }
             // K3 (F-C07-2): the '/.' marker of an authority-less URL whose path starts with "//"
-            if !u.has_host() && (u.path().starts_with("//") || (setter == "pathname" && contains_double_slash(&t))) {
+            if !u.has_host() && (u.path().starts_with("//") || (setter == "pathname" && (t.starts_with(&['/', '/']) || contains_double_slash(&t) && has_dot(&t)))) {
                 return 3;
             }
             if hostish {
@@ -159,12 +175,17 @@ fn known_c07(u: &Url, setter: &str, v: &str) -> u32 {
                     return 2;
                 }
                 // K7 (F-C07-8): only the username is looked at before an empty host is accepted
-                if setter == "host" && !special && u.username().is_empty() && u.password().map_or(false, |p| !p.is_empty()) {
+                let empty_host_part = matches!(t.first(), None | Some('/') | Some('?') | Some('#'));
+                if setter == "host" && !special && empty_host_part && u.username().is_empty() && u.password().map_or(false, |p| !p.is_empty()) {
                     return 7;
                 }
                 return 0;
             }
             // pathname
+            // K1 (F-C07-12 = F-C01-9 through the setter): a drive-letter-shaped segment is never popped
+            if has_drive_segment(&t) && has_dotdot(&t) {
+                return 1;
+            }
             // K5 (F-C07-5): "is the value empty" is asked of the raw value and of has_host(): an
             // authority with an empty host, or a value of tab / newline only, gets the path "/"
             if !special && u.has_authority() && t.is_empty() && (!v.is_empty() || !u.has_host()) {
@@ -344,6 +365,9 @@ impl Ctx {
                 Err(k) => k.clone(),
             };
             if spec_s == imp_s {
+                if record && class != 0 {
+                    self.rep.bump(&format!("known-but-agrees:K{}", class));
+                }
                 if record {
                     let changed = next.as_ref().map_or(false, |(_, a)| *a != before);
                     let sig = format!("std:{}:{}:{}:{}", name, if changed { "changes" } else { "ignored" }, shape(&u), if class != 0 { "in-known" } else { "" });
